@@ -464,6 +464,10 @@ def run(rep):
     rng = ck.rng
     quick = rep.tier == 'quick'
     names = hostile_names(random.Random(rep.seed + 5), 160)
+    # pySMT's own round trip also covers the two characters SMT-LIB cannot
+    # write in a symbol (it escapes them as \\| and \\\\)
+    names += ['path\\to', 'a|b', '\\', '|', 'x\\|y', 'end\\', '\\\\n',
+              'a\\b|c', '||', 'q\\ r']
     j = 0
     n = 700 if quick else 40000
     rep.share(0.4)
